@@ -510,13 +510,13 @@ func runMP(c *engine.Ctx, prop string) {
 			New: func() (engine.Sys, error) { return newMPSys(cfg, u, prop) }})
 		c.Bounds[name] = map[string]interface{}{"keys": u.keys, "part_numbers": u.partNums, "part_bodies": u.bodies, "max_open_uploads": u.maxOpen, "max_initiated": u.maxInit, "history_depth": d}
 	}
-	if prop == "C06" {
+	{
 		// environment answer "the backend cannot store the assembled object": the
 		// complete fails and must leave the pending upload (every part) as it was,
 		// so that a retry stores the full object
 		cfg := drv.Config{Kind: drv.Mem, PutFault: true}
 		fu := &mpUniverse{keys: []string{"a"}, partNums: []int{1, 2}, bodies: []string{"a", "bb"}, maxOpen: 2, maxInit: 2, maxParts: 2}
-		name := "C06/mem/store-fault"
+		name := prop + "/mem/store-fault"
 		d := depth
 		engine.RunSeq(c, engine.SeqSpec{Name: name, World: "mem", MaxDepth: d,
 			New: func() (engine.Sys, error) { return newMPSys(cfg, fu, prop) }})
